@@ -383,9 +383,10 @@ def run_coq_cases(prop_id, imports, terms, shard=200, jobs=16, timeout=900, tag=
             COQ,
             files[i],
         )
-        return subprocess.Popen(
-            cmd, cwd=wd, shell=True, stdout=subprocess.PIPE, stderr=subprocess.STDOUT
-        )
+        outf = open(os.path.join(wd, files[i] + ".out"), "wb")
+        p = subprocess.Popen(cmd, cwd=wd, shell=True, stdout=outf, stderr=subprocess.STDOUT)
+        p._outf = outf
+        return p
 
     pending = list(range(len(files)))
     running = {}
@@ -396,7 +397,9 @@ def run_coq_cases(prop_id, imports, terms, shard=200, jobs=16, timeout=900, tag=
         done = []
         for i, p in running.items():
             if p.poll() is not None:
-                out = p.stdout.read().decode("utf-8", "replace")
+                p._outf.close()
+                with open(os.path.join(wd, files[i] + ".out"), "rb") as fh:
+                    out = fh.read().decode("utf-8", "replace")
                 if p.returncode != 0:
                     raise ModelEvalError(
                         "coqc failed on %s/%s:\n%s" % (wd, files[i], out[-3000:])
@@ -763,3 +766,12 @@ TRUSTED_BASE_COMMON = [
     "the correspondence harness (generator, Gallina emitter, token decoder, comparator with 1e-9 relative tolerance)",
     "exact rationals + NaN/inf instead of IEEE float64 (rounding and signed zero are not modelled)",
 ]
+
+
+def g_subtotal(s):
+    """(addend_idxs, subtrahend_idxs) -> Gallina `subtotal` literal (Model/Subtotals.v)"""
+    return "(mkSub %s %s)" % (g_list([g_nat(i) for i in s[0]]), g_list([g_nat(i) for i in s[1]]))
+
+
+def g_subtotals(ss):
+    return g_list([g_subtotal(s) for s in ss])
